@@ -2,7 +2,7 @@ SPECIFICATION Spec
 CONSTANTS
   Rel = "rfc"
   Budget = 2
-  Foreign = FALSE
+  Foreign = TRUE
 INVARIANTS TypeOK NeverAdminDown UpMeansPeerAlive KnowsPeer
 PROPERTIES SilenceMeansDown Recovers
 CHECK_DEADLOCK FALSE
